@@ -76,13 +76,16 @@ package v1
 // removeTxByElement: the key of the element's transaction leaves the index, no other key is touched; if the element was
 // in the list, list and index stay in step and count and bytes shrink by it.
 //@ func TxMempool.removeTxByElement
-//@   assigns except(v1.WrappedTx, abci, cfg)
+//@   assigns except(v1.WrappedTx, abci, cfg, types)
 //@   ensures same: txmp.txs == old(txmp.txs) && txmp.config == old(txmp.config)
 //@   ensures wf: old(wfPool1(txmp) && elt.owner == txmp.txs) ==> wfPool1(txmp)
 //@   ensures gone: !has(txmp.txByKey, keyOf1(old(txOf1(elt))))
 //@   ensures sizes: old(elt.owner == txmp.txs) ==> (txmp.txs.len == old(txmp.txs.len) - 1 && txmp.txsBytes == old(txmp.txsBytes) - len(old(txOf1(elt))))
 //@   ensures others: forall(k, k != keyOf1(old(txOf1(elt))) ==> (has(txmp.txByKey, k) <==> old(has(txmp.txByKey, k))))
+//@ import types github.com/tendermint/tendermint/types
 //@ func TxMempool.removeTxByKey
+//@   assigns except(v1.WrappedTx, abci, cfg, types)
+//@   ensures same: txmp.txs == old(txmp.txs) && txmp.config == old(txmp.config)
 //@   requires wf: wfPool1(txmp)
 //@   ensures wf: wfPool1(txmp)
 //@   ensures gone: !has(txmp.txByKey, key)
@@ -107,3 +110,41 @@ package v1
 //@   ensures limits: old(txmp.txs.len < txmp.config.Size && len(wtx.tx) + txmp.txsBytes <= txmp.config.MaxTxsBytes && txmp.txsBytes <= txmp.config.MaxTxsBytes) ==> (txmp.txs.len <= txmp.config.Size && txmp.txsBytes <= txmp.config.MaxTxsBytes)
 //@   loop 1 invariant keep: txmp.txs != nil && !has(txmp.txByKey, keyOf1(wtx.tx))
 //@   loop 2 invariant keep: txmp.txs != nil && !has(txmp.txByKey, keyOf1(wtx.tx))
+
+// Update: every transaction of the committed block is gone from the pool afterwards, nothing is added, and list and
+// index stay in step. ASSUMED: TTL purging only removes (its loop walks the list while removing from it - the list's
+// order is not modelled); starting the asynchronous recheck does not change the pool before Update returns.
+//@ func TxMempool.purgeExpiredTxs
+//@   trusted
+//@   assigns except(v1.WrappedTx, abci, cfg, types)
+//@   ensures same: txmp.txs == old(txmp.txs) && txmp.config == old(txmp.config)
+//@   ensures wf: old(wfPool1(txmp)) ==> wfPool1(txmp)
+//@   ensures only_removals: forall(k, has(txmp.txByKey, k) ==> old(has(txmp.txByKey, k)))
+//@ func TxMempool.recheckTransactions
+//@   trusted
+//@   assigns nothing
+//@ func TxMempool.Update
+//@   requires wf: wfPool1(txmp)
+//@   ensures wf: result == nil ==> wfPool1(txmp)
+//@   ensures gone: result == nil ==> forall(i, 0, len(blockTxs), !has(txmp.txByKey, keyOf1(blockTxs[i])))
+//@   ensures only_removals: forall(k, has(txmp.txByKey, k) ==> old(has(txmp.txByKey, k)))
+//@   loop 1 invariant idx: 0 <= rangeindex + 1 && rangeindex + 1 <= len(blockTxs)
+//@   loop 1 invariant wf: wfPool1(txmp)
+//@   loop 1 invariant gone: forall(j, 0, rangeindex + 1, !has(txmp.txByKey, keyOf1(blockTxs[j])))
+//@   loop 1 invariant only_removals: forall(k, has(txmp.txByKey, k) ==> old(has(txmp.txByKey, k)))
+
+// Reaping respects the limits given. ASSUMED of allEntriesSorted: it returns the pool's transactions (non-nil entries);
+// their order (priority, then arrival) comes from sort.Slice with a comparator and is not under contract.
+//@ func TxMempool.allEntriesSorted
+//@   trusted
+//@   assigns nothing
+//@   ensures some: forall(i, 0, len(result), result[i] != nil)
+//@ func TxMempool.ReapMaxTxs
+//@   ensures count: max >= 0 ==> len(result) <= max
+//@   loop 1 invariant cnt: 0 <= rangeindex + 1 && (max >= 0 ==> len(keep) <= max)
+// (sumSize, protoSize and the lemma sumSizeFrame are declared with the v0 contracts; ComputeProtoSizeForTxs likewise.)
+//@ func TxMempool.ReapMaxBytesMaxGas
+//@   uses sumSizeFrame
+//@   ensures bytes: maxBytes >= 0 ==> sumSize(result, len(result)) <= maxBytes
+//@   loop 1 invariant bytes: (maxBytes >= 0 ==> totalBytes <= maxBytes) && totalBytes == sumSize(keep, len(keep)) && totalBytes >= 0
+//@   loop 1 invariant gas: maxGas >= 0 ==> totalGas <= maxGas
